@@ -1251,7 +1251,9 @@ Proof.
   - simpl. apply nf_bind; [|intro; apply nf_ret].
     generalize (@nil (string * json)) as acc.
     induction IH as [|[k v] kv' Hx Hl IHl]; intro acc; [apply nf_ret|].
-    apply nf_bind; [apply nf_lift_eval|intro k']. apply nf_bind; [apply Hx|intro v'].
+    apply nf_bind; [apply nf_lift_eval|intro k'].
+    apply nf_bind; [destruct k'; first [apply nf_raise; not_oof|apply nf_ret]|intros _].
+    apply nf_bind; [apply Hx|intro v'].
     destruct k'; try (apply nf_raise; not_oof). apply IHl.
 Qed.
 
